@@ -404,6 +404,28 @@ type c39Inst struct {
 	possActive bool
 	P          []c39Elem
 	starts     int
+
+	buildT, closeT int64
+	// decisive: the instance has made a READY/IDLE/TRANSIENT_FAILURE report of its own.
+	decisive bool
+}
+
+// staleHazard: this live instance replaced, at one and the same instant, an
+// instance of the same child that was closed at that instant after having made
+// a report at that instant, and has not yet made a READY/IDLE/TRANSIENT_FAILURE
+// report of its own. grpc-go attributes queued child updates by NAME, so the
+// dead instance's report may have been applied to this one (known finding
+// "stale_update_from_closed_child").
+func (in *c39Inst) staleHazard() *c39Inst {
+	if in.closed || in.decisive || in.w == nil {
+		return nil
+	}
+	for _, old := range in.w.insts {
+		if n := len(old.reports); old != in && old.child == in.child && old.closed && old.closeT == in.buildT && n > 0 && old.reports[n-1].t == in.buildT {
+			return old
+		}
+	}
+	return nil
 }
 
 func (in *c39Inst) UpdateClientConnState(s balancer.ClientConnState) error {
@@ -418,6 +440,7 @@ func (in *c39Inst) UpdateClientConnState(s balancer.ClientConnState) error {
 		in.child = cfg.Child
 		w.insts = append(w.insts, in)
 		w.e.Logf("build inst=%d child=%s policy=%s", in.id, in.child, in.builder[len(in.builder)-1:])
+		in.buildT = w.now()
 	}
 	in.cfg = cfg
 	w.onUCCS(in)
@@ -443,6 +466,7 @@ func (in *c39Inst) Close() {
 		return
 	}
 	in.closed = true
+	in.closeT = in.w.now()
 	in.w.onClose(in)
 }
 
@@ -653,6 +677,9 @@ func (w *c39World) onReport(in *c39Inst, st connectivity.State, p *c39Picker) {
 		}
 	}
 	in.reports = append(in.reports, c39Report{t: t, st: st, p: p})
+	if st != connectivity.Connecting {
+		in.decisive = true
+	}
 	if in.possActive {
 		var np []c39Elem
 		for _, e := range in.P {
@@ -740,9 +767,27 @@ func (w *c39World) settle() {
 	}
 }
 
+// c39Env routes oracle failures: while a started child is exposed to the known
+// stale-update defect (see c39Inst.staleHazard) they are reported under one
+// oracle name of their own, so that the finding can be told apart.
+type c39Env struct {
+	*core.Env
+	w *c39World
+}
+
+func (e c39Env) Violate(oracle, format string, a ...any) {
+	for _, in := range e.w.insts {
+		if old := in.staleHazard(); old != nil {
+			e.Env.Violate("stale_update_from_closed_child", "[%s] %s; child %s#%d replaced %s#%d, which reported at the instant it was closed", oracle, fmt.Sprintf(format, a...), in.child, in.id, in.child, old.id)
+			return
+		}
+	}
+	e.Env.Violate(oracle, format, a...)
+}
+
 // check evaluates the oracles at quiescence.
 func (w *c39World) check(b balancer.Balancer) {
-	e := w.e
+	e := c39Env{w.e, w}
 	t := w.now()
 	if w.cfg == nil {
 		return
